@@ -353,6 +353,33 @@ def rule_cleave(chk, repo, rid='C10.e'):
            'update_peptides filter altered', key=CLEAVE + '::filter', fn=f.qual)
 
 
+def rule_oneshot(chk, repo, rid='C10.f'):
+    """R-ONESHOT over the digestion code: exception sites are consulted once per candidate site, so they must be a container."""
+    import textwrap
+    # positive control: the lint must fire on the canonical bad shape
+    bad = ast.parse(textwrap.dedent("""
+        def f(rule, exception, seq):
+            sites = [] if exception is None else (x.end() for x in re.finditer(exception, seq))
+            for it in re.finditer(rule, seq):
+                if it.end() not in sites:
+                    yield it.end()
+    """)).body[0]
+    if not G.oneshot_misuse(bad):
+        raise AnalysisError('R-ONESHOT positive control did not fire')
+    funcs = [f for f in repo.funcs_in('aa', 'dna') if any(isinstance(n, (ast.Compare, ast.For)) for n in ast.walk(f.node))]
+    chk.rule(rid, 'R-ONESHOT: no membership test / repeated iteration on a one-shot iterator in the digestion code', 20)
+    n_in = 0
+    for f in funcs:
+        chk.uses(f)
+        hits = G.oneshot_misuse(f.node)
+        n_in += 1
+        chk.ob(rid, f"{f.qual}: site collections are materialised", f.where, not hits,
+               '; '.join(f"{repo.loc(f, h[0])}: {h[2]}" for h in hits) +
+               ': after the first miss the iterator is exhausted, so later candidates are never recognised (e.g. every trypsin exception site behind the '
+               'first ordinary site is cut: forbidden peptides enter the canonical pool, true ones are lost)',
+               key=f"{f.qual}::oneshot", fn=f.qual)
+
+
 def run(chk, repo):
     chk.clauses = [
         'C10.a for every enzyme: site pattern and range pattern denote the same windows on ALL strings (regex-AST set algebra); '
@@ -363,6 +390,7 @@ def run(chk, repo):
         'C10.c pool assembly: leading-X strip and first-stop cut dominate the digest; I/L pairing; cds_start_nf threaded',
         'C10.d the six cleavage parameters flow name-to-name from args into the pool construction at all three sites',
         'C10.e enzymatic_cleave emits every window within the miscleavage limit exactly once; M-removal guard',
+        'C10.f site / exception-site collections that are tested for membership or re-iterated are materialised (never one-shot iterators)',
     ]
     chk.not_decided = ['that the ExPASy tables transcribe the published rules (no independent copy in the sandbox)',
                        'partition independence of cut sites inside the graphs (lookaround across node boundaries)']
@@ -371,3 +399,4 @@ def run(chk, repo):
     rule_pool_shape(chk, repo)
     rule_thread(chk, repo)
     rule_cleave(chk, repo)
+    rule_oneshot(chk, repo)
